@@ -1,5 +1,4 @@
-import CollectionsC.Proofs.DequeAddAt
-import CollectionsC.Proofs.DequeMore
+import CollectionsC.Proofs.DequeCross
 /-! # C05 — CC_Deque is an ideal double-ended sequence in every physical layout
 
 Statements and closing proofs only; the per-operation theorems are in `Proofs/Deque*.lean`.
@@ -86,10 +85,10 @@ is an allocating operation whose allocation was refused (or the capacity limit `
 reached by a full deque): then it reports `CC_ERR_ALLOC` and the whole state is unchanged. -/
 theorem step_refines (d : Deque) (m : Mem) (op : Op) (hi : d.Inv) (hD3 : ¬ inD3 d.size op) :
     ((stepM d m op).1 = (stepS d.abs op).1 ∧ (stepM d m op).2.1.abs = (stepS d.abs op).2 ∧
-      (stepM d m op).2.1.Inv ∧ Deque.memSame (stepM d m op).2.2 m) ∨
+      (stepM d m op).2.1.Inv ∧ Deque.memSame d.triple (stepM d m op).2.2 m) ∨
     (op.allocates = true ∧ (stepM d m op).1 = ⟨some .errAlloc, none⟩ ∧ (stepM d m op).2.1 = d ∧
-      Deque.memSame (stepM d m op).2.2 m ∧
-      (m.alloc.1 = false ∨ (d.cap = Gen.MAX_POW_TWO ∧ d.size = d.cap))) := by
+      Deque.memSame d.triple (stepM d m op).2.2 m ∧
+      ((m.allocT d.triple).1 = false ∨ (d.cap = Gen.MAX_POW_TWO ∧ d.size = d.cap))) := by
   cases op with
   | addFirst x =>
     rcases Deque.addFirst_spec d x m hi with ⟨a1, a2, a3, a4, _⟩ | ⟨a1, a2, a3, a4, a5⟩
@@ -105,53 +104,93 @@ theorem step_refines (d : Deque) (m : Mem) (op : Op) (hi : d.Inv) (hD3 : ¬ inD3
     · right; simp only [stepM, a1]; exact ⟨rfl, trivial, a2, a3, a5.imp id (fun h => ⟨h, a4⟩)⟩
   | replaceAt x i =>
     obtain ⟨a1, a2, a3, a4, a5, _⟩ := Deque.replaceAt_spec d x i m hi
-    left; simp only [stepM, stepS, a1, a2]; exact ⟨trivial, a3, a4, by rw [a5]; exact Deque.memSame_refl m⟩
+    left; simp only [stepM, stepS, a1, a2]; exact ⟨trivial, a3, a4, by rw [a5]; exact Deque.memSame_refl _ m⟩
   | removeAt i =>
     obtain ⟨a1, a2, a3, a4, a5, _⟩ := Deque.removeAt_spec d i m hi
-    left; simp only [stepM, stepS, a1, a2]; exact ⟨trivial, a3, a4, by rw [a5]; exact Deque.memSame_refl m⟩
+    left; simp only [stepM, stepS, a1, a2]; exact ⟨trivial, a3, a4, by rw [a5]; exact Deque.memSame_refl _ m⟩
   | removeFirst =>
     obtain ⟨a1, a2, a3, a4, a5, _⟩ := Deque.removeFirst_spec d m hi
     left; simp only [stepM, stepS, a1, a2, Deque.spec_removeFirst_eq]
-    exact ⟨trivial, a3, a4, by rw [a5]; exact Deque.memSame_refl m⟩
+    exact ⟨trivial, a3, a4, by rw [a5]; exact Deque.memSame_refl _ m⟩
   | removeLast =>
     obtain ⟨a1, a2, a3, a4, a5, _⟩ := Deque.removeLast_spec d m hi
     have hl : d.size = d.abs.length := by simp
     rw [hl] at a1 a2 a3
     left; simp only [stepM, stepS, a1, a2, Deque.spec_removeLast_eq]
-    exact ⟨trivial, a3, a4, by rw [a5]; exact Deque.memSame_refl m⟩
+    exact ⟨trivial, a3, a4, by rw [a5]; exact Deque.memSame_refl _ m⟩
   | remove x =>
     obtain ⟨a1, a2, a3, a4, a5, _⟩ := Deque.remove_spec d x m hi
-    left; simp only [stepM, stepS, a1, a2]; exact ⟨trivial, a3, a4, by rw [a5]; exact Deque.memSame_refl m⟩
+    left; simp only [stepM, stepS, a1, a2]; exact ⟨trivial, a3, a4, by rw [a5]; exact Deque.memSame_refl _ m⟩
   | removeAll =>
     obtain ⟨a1, a2, _⟩ := Deque.removeAll_spec d hi
-    left; exact ⟨rfl, a2, a1, Deque.memSame_refl m⟩
+    left; exact ⟨rfl, a2, a1, Deque.memSame_refl _ m⟩
   | getAt i =>
     obtain ⟨a1, a2, a3⟩ := Deque.getAt_spec d i m hi
-    left; simp only [stepM, stepS, a1, a2]; exact ⟨trivial, trivial, hi, by rw [a3]; exact Deque.memSame_refl m⟩
+    left; simp only [stepM, stepS, a1, a2]; exact ⟨trivial, trivial, hi, by rw [a3]; exact Deque.memSame_refl _ m⟩
   | getFirst =>
     obtain ⟨a1, a2, a3⟩ := Deque.getFirst_spec d m hi
-    left; simp only [stepM, stepS, a1, a2]; exact ⟨trivial, trivial, hi, by rw [a3]; exact Deque.memSame_refl m⟩
+    left; simp only [stepM, stepS, a1, a2]; exact ⟨trivial, trivial, hi, by rw [a3]; exact Deque.memSame_refl _ m⟩
   | getLast =>
     obtain ⟨a1, a2, a3⟩ := Deque.getLast_spec d m hi
-    left; simp only [stepM, stepS, a1, a2]; exact ⟨trivial, trivial, hi, by rw [a3]; exact Deque.memSame_refl m⟩
+    left; simp only [stepM, stepS, a1, a2]; exact ⟨trivial, trivial, hi, by rw [a3]; exact Deque.memSame_refl _ m⟩
   | reverse =>
     obtain ⟨a1, a2, a3, _⟩ := Deque.reverse_spec d m hi
-    left; simp only [stepM, stepS]; exact ⟨trivial, a1, a2, by rw [a3]; exact Deque.memSame_refl m⟩
+    left; simp only [stepM, stepS]; exact ⟨trivial, a1, a2, by rw [a3]; exact Deque.memSame_refl _ m⟩
   | filterMut p =>
     obtain ⟨a1, a2, a3, a4, _⟩ := Deque.filterMut_spec d p m hi
-    left; simp only [stepM, stepS, a1]; exact ⟨trivial, a2, a3, by rw [a4]; exact Deque.memSame_refl m⟩
+    left; simp only [stepM, stepS, a1]; exact ⟨trivial, a2, a3, by rw [a4]; exact Deque.memSame_refl _ m⟩
   | trim =>
     rcases Deque.trimCapacity_spec d m hi with ⟨a1, a2, a3, a4, _⟩ | ⟨a1, a2, a3, a4, _⟩
     · left; simp only [stepM, stepS, a1]; exact ⟨trivial, a3, a2, a4⟩
     · right; simp only [stepM, a1]; exact ⟨rfl, trivial, a2, a3, Or.inl a4⟩
   | contains x =>
     obtain ⟨a1, a2⟩ := Deque.contains_spec d x m hi
-    left; simp only [stepM, stepS, a1]; exact ⟨trivial, trivial, hi, by rw [a2]; exact Deque.memSame_refl m⟩
+    left; simp only [stepM, stepS, a1]; exact ⟨trivial, trivial, hi, by rw [a2]; exact Deque.memSame_refl _ m⟩
   | indexOf x =>
     obtain ⟨a1, a2, a3⟩ := Deque.indexOf_spec d x m hi
-    left; simp only [stepM, stepS, a1, a2]; exact ⟨trivial, trivial, hi, by rw [a3]; exact Deque.memSame_refl m⟩
+    left; simp only [stepM, stepS, a1, a2]; exact ⟨trivial, trivial, hi, by rw [a3]; exact Deque.memSame_refl _ m⟩
 
-/-! ## histories -/
+/-- **a refused allocation is atomic** (every layout, every index, D3's range included for `add_at`):
+whenever one of the allocating operations reports an error, the deque is physically unchanged, the
+ledger is balanced and nothing faulted -/
+theorem refused_atomic (d : Deque) (m : Mem) (x i : Nat) (hi : d.Inv) :
+    ((d.addFirst x m).1 ≠ .ok → (d.addFirst x m).2.1 = d ∧ Deque.memSame d.triple (d.addFirst x m).2.2 m) ∧
+    ((d.addLast x m).1 ≠ .ok → (d.addLast x m).2.1 = d ∧ Deque.memSame d.triple (d.addLast x m).2.2 m) ∧
+    ((d.addAt x i m).1 ≠ .ok → (d.addAt x i m).2.1 = d ∧ Deque.memSame d.triple (d.addAt x i m).2.2 m) ∧
+    ((d.trimCapacity m).1 ≠ .ok → (d.trimCapacity m).2.1 = d ∧ Deque.memSame d.triple (d.trimCapacity m).2.2 m) := by
+  refine ⟨?_, ?_, ?_, ?_⟩
+  · intro h
+    rcases Deque.addFirst_spec d x m hi with ⟨a1, _⟩ | ⟨_, a2, a3, _⟩
+    · exact absurd a1 h
+    · exact ⟨a2, a3⟩
+  · intro h
+    rcases Deque.addLast_spec d x m hi with ⟨a1, _⟩ | ⟨_, a2, a3, _⟩
+    · exact absurd a1 h
+    · exact ⟨a2, a3⟩
+  · intro h
+    obtain ⟨_, a2, _, a4⟩ := Deque.addAt_inv d x i m hi
+    exact ⟨(a4 h).1, a2⟩
+  · intro h
+    rcases Deque.trimCapacity_spec d m hi with ⟨a1, _⟩ | ⟨_, a2, a3, _⟩
+    · exact absurd a1 h
+    · exact ⟨a2, a3⟩
+
+/-- an operation never changes the deque's allocator triple -/
+theorem step_triple (d : Deque) (m : Mem) (op : Op) : (stepM d m op).2.1.triple = d.triple := by
+  cases op with
+  | addFirst x => exact Deque.addFirst_triple d x m
+  | addLast x => exact Deque.addLast_triple d x m
+  | addAt x i => exact Deque.addAt_triple d x i m
+  | replaceAt x i => exact Deque.replaceAt_triple d x i m
+  | removeAt i => exact Deque.removeAt_triple d i m
+  | removeFirst => exact Deque.removeFirst_triple d m
+  | removeLast => exact Deque.removeLast_triple d m
+  | remove x => exact Deque.remove_triple d x m
+  | filterMut p => exact Deque.filterMut_triple d p m
+  | trim => exact Deque.trimCapacity_triple d m
+  | _ => rfl
+
+/-! ## histories under every refusal schedule -/
 
 def runS (l : List Nat) : List Op → List Out × List Nat
   | [] => ([], l)
@@ -160,6 +199,187 @@ def runS (l : List Nat) : List Op → List Out × List Nat
 def runM (d : Deque) (m : Mem) : List Op → List Out × Deque × Mem
   | [] => ([], d, m)
   | op :: ops => let r := stepM d m op; let rs := runM r.2.1 r.2.2 ops; (r.1 :: rs.1, rs.2.1, rs.2.2)
+
+/-- the model reported `CC_ERR_ALLOC` for this call -/
+def blocked (d : Deque) (m : Mem) (op : Op) : Bool := (stepM d m op).1.st == some .errAlloc
+
+/-- the ideal list, told which calls were blocked: a blocked call returns `CC_ERR_ALLOC` and changes
+nothing, every other call is the ideal operation -/
+def stepB (l : List Nat) (ob : Op × Bool) : Out × List Nat :=
+  if ob.2 then (⟨some .errAlloc, none⟩, l) else stepS l ob.1
+
+def runB (l : List Nat) : List (Op × Bool) → List Out × List Nat
+  | [] => ([], l)
+  | ob :: obs => let r := stepB l ob; let rs := runB r.2 obs; (r.1 :: rs.1, rs.2)
+
+/-- which calls of a history the model blocks (along its own run) -/
+def flags (d : Deque) (m : Mem) : List Op → List Bool
+  | [] => []
+  | op :: ops => blocked d m op :: flags (stepM d m op).2.1 (stepM d m op).2.2 ops
+
+/-- no *executed* `add_at` of the history falls into finding D3's range (sizes along the ideal run) -/
+def d3FreeB (l : List Nat) : List (Op × Bool) → Prop
+  | [] => True
+  | ob :: obs => (ob.2 = false → ¬ inD3 l.length ob.1) ∧ d3FreeB (stepB l ob).2 obs
+
+/-- the operation has to obtain a new buffer in this state -/
+def needsAlloc (d : Deque) : Op → Prop
+  | .addFirst _ | .addLast _ => d.size = d.cap
+  | .addAt _ i => i < d.size ∧ d.size = d.cap
+  | .trim => d.cap ≠ d.size ∧ Deque.upperPow2 d.size ≠ d.cap
+  | _ => False
+
+/-- growing is impossible because the capacity limit `MAX_POW_TWO` is reached -/
+def limitHit (d : Deque) : Op → Prop
+  | .addFirst _ | .addLast _ | .addAt _ _ => d.cap = Gen.MAX_POW_TWO
+  | _ => False
+
+/-- the ideal list never reports `CC_ERR_ALLOC` -/
+theorem stepS_never_errAlloc (l : List Nat) (op : Op) : (stepS l op).1.st ≠ some .errAlloc := by
+  cases op with
+  | addFirst x => simp [stepS]
+  | addLast x => simp [stepS]
+  | addAt x i => simp only [stepS, DequeSpec.addAt]; split <;> simp
+  | replaceAt x i => simp only [stepS, DequeSpec.replaceAt]; split <;> simp
+  | removeAt i => simp only [stepS, DequeSpec.removeAt]; split <;> simp
+  | removeFirst => cases l <;> simp [stepS, DequeSpec.removeFirst]
+  | removeLast => simp only [stepS, DequeSpec.removeLast]; cases l.getLast? <;> simp
+  | remove x => simp only [stepS, DequeSpec.remove]; cases l.findIdx? (· == x) <;> simp
+  | removeAll => simp [stepS]
+  | getAt i => simp only [stepS, DequeSpec.getAt]; cases l[i]? <;> simp
+  | getFirst => simp only [stepS, DequeSpec.getFirst, DequeSpec.getAt]; cases l[0]? <;> simp
+  | getLast => simp only [stepS, DequeSpec.getLast]; cases l.getLast? <;> simp
+  | reverse => simp [stepS]
+  | filterMut p => simp only [stepS, DequeSpec.filterMut]; split <;> simp
+  | trim => simp [stepS]
+  | contains x => simp [stepS]
+  | indexOf x => simp only [stepS, DequeSpec.indexOf]; cases l.findIdx? (· == x) <;> simp
+
+/-- **the blocked set is pinned down**: a call is blocked exactly when it has to obtain a new buffer and
+the allocator of the deque's triple refuses, or the documented capacity limit is reached — never
+otherwise, and never for an operation that does not allocate (every layout, D3's range included) -/
+theorem blocked_iff (d : Deque) (m : Mem) (op : Op) (hi : d.Inv) :
+    blocked d m op = true ↔ needsAlloc d op ∧ ((m.allocT d.triple).1 = false ∨ limitHit d op) := by
+  have he := Deque.errAlloc_iff d m
+  unfold blocked
+  rw [beq_iff_eq]
+  have hnon : ∀ op, ¬ inD3 d.size op → op.allocates = false → (stepM d m op).1.st ≠ some .errAlloc := by
+    intro op hD hal
+    rcases step_refines d m op hi hD with ⟨s1, _⟩ | ⟨s1, _⟩
+    · rw [s1]; exact stepS_never_errAlloc d.abs op
+    · rw [hal] at s1; exact absurd s1 (by decide)
+  cases op with
+  | addFirst x =>
+    simp only [stepM, Option.some.injEq, needsAlloc, limitHit]
+    rw [(he x 0 hi).2.1]
+    constructor
+    · rintro ⟨a, b⟩; exact ⟨a, b.symm⟩
+    · rintro ⟨a, b⟩; exact ⟨a, b.symm⟩
+  | addLast x =>
+    simp only [stepM, Option.some.injEq, needsAlloc, limitHit]
+    rw [(he x 0 hi).1]
+    constructor
+    · rintro ⟨a, b⟩; exact ⟨a, b.symm⟩
+    · rintro ⟨a, b⟩; exact ⟨a, b.symm⟩
+  | addAt x i =>
+    simp only [stepM, Option.some.injEq, needsAlloc, limitHit]
+    rw [(he x i hi).2.2.1]
+    constructor
+    · rintro ⟨a, b, c⟩; exact ⟨⟨a, b⟩, c.symm⟩
+    · rintro ⟨⟨a, b⟩, c⟩; exact ⟨a, b, c.symm⟩
+  | trim =>
+    simp only [stepM, Option.some.injEq, needsAlloc, limitHit]
+    rw [(he 0 0 hi).2.2.2]
+    constructor
+    · rintro ⟨a, b, c⟩; exact ⟨⟨a, b⟩, Or.inl c⟩
+    · rintro ⟨⟨a, b⟩, c | c⟩
+      · exact ⟨a, b, c⟩
+      · exact c.elim
+  | replaceAt x i => simp only [needsAlloc, false_and, iff_false]; exact hnon _ (fun h => h) rfl
+  | removeAt i => simp only [needsAlloc, false_and, iff_false]; exact hnon _ (fun h => h) rfl
+  | removeFirst => simp only [needsAlloc, false_and, iff_false]; exact hnon _ (fun h => h) rfl
+  | removeLast => simp only [needsAlloc, false_and, iff_false]; exact hnon _ (fun h => h) rfl
+  | remove x => simp only [needsAlloc, false_and, iff_false]; exact hnon _ (fun h => h) rfl
+  | removeAll => simp only [needsAlloc, false_and, iff_false]; exact hnon _ (fun h => h) rfl
+  | getAt i => simp only [needsAlloc, false_and, iff_false]; exact hnon _ (fun h => h) rfl
+  | getFirst => simp only [needsAlloc, false_and, iff_false]; exact hnon _ (fun h => h) rfl
+  | getLast => simp only [needsAlloc, false_and, iff_false]; exact hnon _ (fun h => h) rfl
+  | reverse => simp only [needsAlloc, false_and, iff_false]; exact hnon _ (fun h => h) rfl
+  | filterMut p => simp only [needsAlloc, false_and, iff_false]; exact hnon _ (fun h => h) rfl
+  | contains x => simp only [needsAlloc, false_and, iff_false]; exact hnon _ (fun h => h) rfl
+  | indexOf x => simp only [needsAlloc, false_and, iff_false]; exact hnon _ (fun h => h) rfl
+
+/-- a blocked call leaves the deque physically unchanged and the ledger balanced (every layout, every
+index: finding D3's range included) -/
+theorem blocked_inert (d : Deque) (m : Mem) (op : Op) (hi : d.Inv) (hb : blocked d m op = true) :
+    (stepM d m op).1 = ⟨some .errAlloc, none⟩ ∧ (stepM d m op).2.1 = d ∧ Deque.memSame d.triple (stepM d m op).2.2 m := by
+  have hn := ((blocked_iff d m op hi).mp hb).1
+  unfold blocked at hb
+  rw [beq_iff_eq] at hb
+  have hra := fun x i => refused_atomic d m x i hi
+  cases op with
+  | addFirst x =>
+    simp only [stepM, Option.some.injEq] at hb ⊢
+    obtain ⟨a, b⟩ := (hra x 0).1 (by rw [hb]; decide)
+    exact ⟨by rw [hb], a, b⟩
+  | addLast x =>
+    simp only [stepM, Option.some.injEq] at hb ⊢
+    obtain ⟨a, b⟩ := (hra x 0).2.1 (by rw [hb]; decide)
+    exact ⟨by rw [hb], a, b⟩
+  | addAt x i =>
+    simp only [stepM, Option.some.injEq] at hb ⊢
+    obtain ⟨a, b⟩ := (hra x i).2.2.1 (by rw [hb]; decide)
+    exact ⟨by rw [hb], a, b⟩
+  | trim =>
+    simp only [stepM, Option.some.injEq] at hb ⊢
+    obtain ⟨a, b⟩ := (hra 0 0).2.2.2 (by rw [hb]; decide)
+    exact ⟨by rw [hb], a, b⟩
+  | _ => exact hn.elim
+
+/-- **C05, all histories, every refusal schedule (partial on D3).**  From any layout satisfying the
+invariant and for **any** allocator behaviour, a history whose executed `add_at` calls stay outside
+finding D3's range produces on the model exactly the statuses and out-values of the ideal list that is told
+which calls were blocked (`flags`, pinned down by `blocked_iff`): blocked calls report `CC_ERR_ALLOC` and
+change nothing, all others are the ideal operations — so the history continues correctly after any number
+of refused growth steps.  The final content is the ideal list's, the invariant holds (in particular the
+buffer block is exactly `capacity` slots), the ledger is balanced, nothing faulted, the triple is kept. -/
+theorem history_refines_sched (ops : List Op) (d : Deque) (m : Mem) (hi : d.Inv)
+    (hfree : d3FreeB d.abs (ops.zip (flags d m ops))) :
+    (runM d m ops).1 = (runB d.abs (ops.zip (flags d m ops))).1 ∧
+    (runM d m ops).2.1.abs = (runB d.abs (ops.zip (flags d m ops))).2 ∧
+    (runM d m ops).2.1.Inv ∧ Deque.memSame d.triple (runM d m ops).2.2 m ∧
+    (runM d m ops).2.1.triple = d.triple := by
+  induction ops generalizing d m with
+  | nil => exact ⟨rfl, rfl, hi, Deque.memSame_refl _ m, rfl⟩
+  | cons op ops ih =>
+    simp only [flags, List.zip_cons_cons, d3FreeB] at hfree
+    obtain ⟨hf1, hf2⟩ := hfree
+    have htr := step_triple d m op
+    simp only [runM, flags, List.zip_cons_cons, runB]
+    cases hb : blocked d m op
+    · -- executed
+      rw [hb] at hf1 hf2
+      simp only [stepB, Bool.false_eq_true, if_false] at hf2 ⊢
+      rw [Deque.abs_length] at hf1
+      rcases step_refines d m op hi (hf1 rfl) with ⟨s1, s2, s3, s4⟩ | ⟨_, s1, _⟩
+      · rw [← s2] at hf2
+        obtain ⟨r1, r2, r3, r4, r5⟩ := ih (stepM d m op).2.1 (stepM d m op).2.2 s3 hf2
+        rw [s2] at r1 r2
+        rw [htr] at r4 r5
+        exact ⟨by rw [s1, r1], r2, r3, Deque.memSame_trans r4 s4, r5⟩
+      · exfalso
+        unfold blocked at hb
+        rw [s1] at hb; simp at hb
+    · -- blocked
+      obtain ⟨b1, b2, b3⟩ := blocked_inert d m op hi hb
+      rw [hb] at hf2
+      simp only [stepB, if_true] at hf2 ⊢
+      have habs : (stepM d m op).2.1.abs = d.abs := by rw [b2]
+      rw [← habs] at hf2
+      obtain ⟨r1, r2, r3, r4, r5⟩ := ih (stepM d m op).2.1 (stepM d m op).2.2 (by rw [b2]; exact hi) hf2
+      rw [habs] at r1 r2
+      rw [htr] at r4 r5
+      exact ⟨by rw [b1, r1], r2, r3, Deque.memSame_trans r4 b3, r5⟩
 
 /-- no `add_at` of the history falls into finding D3's range (sizes taken along the ideal run) -/
 def d3Free (l : List Nat) : List Op → Prop
@@ -195,57 +415,80 @@ theorem stepS_length_le (l : List Nat) (op : Op) : (stepS l op).2.length ≤ l.l
   | contains x => simp [stepS]
   | indexOf x => simp [stepS]
 
-/-- **C05, all histories (partial on D3).**  With an allocator that does not refuse and fewer than
-`MAX_POW_TWO` elements, every history that stays outside finding D3's range produces on the model —
-from any layout satisfying the invariant — exactly the statuses and out-values of the ideal list, and
-ends in a state whose content is the ideal list's, with the invariant intact, a balanced ledger and
-no fault.  In particular an element index `i` always denotes the `i`-th element from the front. -/
-theorem history_refines (ops : List Op) (d : Deque) (m : Mem) (hi : d.Inv) (hs : m.sched = [])
+/-- **Corollary: nothing is blocked** when the allocator never refuses (C-library triple, or an exhausted
+schedule) and the deque stays below `MAX_POW_TWO` elements: the model then equals the plain ideal list. -/
+theorem history_refines (ops : List Op) (d : Deque) (m : Mem) (hi : d.Inv) (hn : Deque.neverRefuses d.triple m)
     (hbound : d.size + ops.length ≤ Gen.MAX_POW_TWO) (hfree : d3Free d.abs ops) :
     (runM d m ops).1 = (runS d.abs ops).1 ∧ (runM d m ops).2.1.abs = (runS d.abs ops).2 ∧
-    (runM d m ops).2.1.Inv ∧ Deque.memSame (runM d m ops).2.2 m := by
+    (runM d m ops).2.1.Inv ∧ Deque.memSame d.triple (runM d m ops).2.2 m := by
   induction ops generalizing d m with
-  | nil => exact ⟨rfl, rfl, hi, Deque.memSame_refl m⟩
+  | nil => exact ⟨rfl, rfl, hi, Deque.memSame_refl _ m⟩
   | cons op ops ih =>
     obtain ⟨hf1, hf2⟩ := hfree
     simp only [List.length_cons] at hbound
     rw [Deque.abs_length] at hf1
+    have htr := step_triple d m op
     rcases step_refines d m op hi hf1 with ⟨s1, s2, s3, s4⟩ | ⟨_, _, _, _, s5⟩
     · have hlen := stepS_length_le d.abs op
       rw [← s2, Deque.abs_length, Deque.abs_length] at hlen
       rw [← s2] at hf2
-      obtain ⟨r1, r2, r3, r4⟩ := ih (stepM d m op).2.1 (stepM d m op).2.2 s3 (s4.2.2.2 hs) (by omega) hf2
+      obtain ⟨r1, r2, r3, r4⟩ := ih (stepM d m op).2.1 (stepM d m op).2.2 s3
+        (by rw [htr]; exact Deque.memD_neverRefuses s4 hn) (by omega) hf2
       simp only [runM, runS]
       rw [s2] at r1 r2
+      rw [htr] at r4
       exact ⟨by rw [s1, r1], r2, r3, Deque.memSame_trans r4 s4⟩
     · exfalso
       rcases s5 with s5 | ⟨s5, s6⟩
-      · have := (Deque.alloc_sched_nil m hs).1
+      · have := (Deque.allocT_of_neverRefuses d.triple m hn).1
         rw [s5] at this; exact absurd this (by decide)
       · have := hi.2.2.2.2.2; omega
 
-/-- **C05 from the constructor**, for every configured capacity (power of two or not, 0 included) -/
-theorem new_history_refines (confCap : Nat) (m0 : Mem) (hs : m0.sched = []) (ops : List Op)
+/-- **C05 from the constructor**, for every configured capacity (power of two or not, 0 included) and
+either constructor (`cc_deque_new_conf` → configured triple, `cc_deque_new` → C library triple): the run
+refines the ideal list, the object owns exactly two blocks on its triple throughout, nothing faults -/
+theorem new_history_refines (confCap : Nat) (t : Triple) (m0 : Mem) (hn : Deque.neverRefuses t m0) (ops : List Op)
     (hbound : ops.length ≤ Gen.MAX_POW_TWO) (hfree : d3Free [] ops) :
-    ∃ d0, Deque.new confCap m0 = (.ok, some d0, (Deque.new confCap m0).2.2) ∧
-      (runM d0 (Deque.new confCap m0).2.2 ops).1 = (runS [] ops).1 ∧
-      (runM d0 (Deque.new confCap m0).2.2 ops).2.1.abs = (runS [] ops).2 ∧
-      (runM d0 (Deque.new confCap m0).2.2 ops).2.1.Inv := by
-  rcases Deque.new_spec confCap m0 with ⟨n1, d0, n2, n3, n4, n5, n6, n7, n8, n9⟩ | ⟨n1, _, _, n4⟩
+    ∃ d0, Deque.new confCap t m0 = (.ok, some d0, (Deque.new confCap t m0).2.2) ∧ d0.triple = t ∧
+      (runM d0 (Deque.new confCap t m0).2.2 ops).1 = (runS [] ops).1 ∧
+      (runM d0 (Deque.new confCap t m0).2.2 ops).2.1.abs = (runS [] ops).2 ∧
+      (runM d0 (Deque.new confCap t m0).2.2 ops).2.1.Inv ∧
+      Deque.memRel t 2 (runM d0 (Deque.new confCap t m0).2.2 ops).2.2 m0 := by
+  rcases Deque.new_spec confCap t m0 with ⟨n1, d0, n2, n3, n4, n5, n6, n7, n8, n9⟩ | ⟨n1, _, _, n4⟩
   · have hsz : d0.size = 0 := by have := congrArg List.length n4; simpa using this
-    have hs' : (Deque.new confCap m0).2.2.sched = [] := by
-      have : (Deque.new confCap m0).2.2 = m0.alloc.2.alloc.2 := by simp [Deque.new, n8, n9]
-      rw [this]; exact (Deque.alloc2_grow m0 n8 n9).2.2 hs
-    obtain ⟨r1, r2, r3, _⟩ := history_refines ops d0 _ n3 hs' (by omega) (by rw [n4]; exact hfree)
+    obtain ⟨r1, r2, r3, r4⟩ := history_refines ops d0 _ n3 (by rw [n6]; exact Deque.memD_neverRefuses n7 hn)
+      (by omega) (by rw [n4]; exact hfree)
     rw [n4] at r1 r2
-    refine ⟨d0, ?_, r1, r2, r3⟩
+    rw [n6] at r4
+    refine ⟨d0, ?_, n6, r1, r2, r3, Deque.memRel_same r4 n7⟩
     rw [← n1, ← n2]
   · exfalso
-    have h1 := (Deque.alloc_sched_nil m0 hs)
-    have h2 := (Deque.alloc_sched_nil _ h1.2).1
+    have h1 := Deque.allocT_of_neverRefuses t m0 hn
+    have h2 := (Deque.allocT_of_neverRefuses t _ h1.2.1).1
     rcases n4 with n4 | n4
     · rw [n4] at h1; exact absurd h1.1 (by decide)
     · rw [n4] at h2; exact absurd h2 (by decide)
+
+/-! ## copying, traversal and size (named in the property text) -/
+
+/-- **copying preserves element order**: a successful `copy_shallow` is a deque with the same content in
+the same order (deep copy: the images, in order), satisfying the invariant; the source is not an output of
+the builder (value semantics of the model — that the C source is untouched is observed by the harness) -/
+theorem copy_preserves_order (d : Deque) (cp : Option (Nat → Nat)) (m : Mem) (hi : d.Inv) (c : Deque)
+    (h : (d.copy cp m).2.1 = some c) :
+    c.Inv ∧ (cp = none → c.abs = d.abs) ∧ (∀ f, cp = some f → c.abs = d.abs.map f) ∧ c.size = d.size := by
+  rcases Deque.copy_spec d cp m hi with ⟨_, c', n2, n3, n4, _⟩ | ⟨_, n2, _⟩
+  · rw [n2] at h; cases h
+    have hl := congrArg List.length n4
+    refine ⟨n3, fun e => by subst e; exact n4, fun f e => by subst e; exact n4, ?_⟩
+    cases cp <;> simpa using hl
+  · rw [n2] at h; cases h
+
+/-- `size` and `foreach` observe the ideal list: `cc_deque_size` is its length, the callback sequence of
+`foreach` is the list itself, front to back -/
+theorem size_and_foreach (d : Deque) (m : Mem) (hi : d.Inv) :
+    d.size = d.abs.length ∧ (d.foreach m).1 = d.abs ∧ (d.foreach m).2 = m :=
+  ⟨by simp, (Deque.foreach_spec d m hi).1, (Deque.foreach_spec d m hi).2⟩
 
 /-! ## rejected and refused calls (C16 / C08, deque part) -/
 
@@ -271,37 +514,12 @@ theorem empty_inert (d : Deque) (m : Mem) (h : d.size = 0) :
   · unfold Deque.getLast; rw [if_pos h]
   · unfold Deque.filterMut; rw [if_pos h]
 
-/-- **a refused allocation is atomic** (every layout, every index, D3's range included for `add_at`):
-whenever one of the allocating operations reports an error, the deque is physically unchanged, the
-ledger is balanced and nothing faulted -/
-theorem refused_atomic (d : Deque) (m : Mem) (x i : Nat) (hi : d.Inv) :
-    ((d.addFirst x m).1 ≠ .ok → (d.addFirst x m).2.1 = d ∧ Deque.memSame (d.addFirst x m).2.2 m) ∧
-    ((d.addLast x m).1 ≠ .ok → (d.addLast x m).2.1 = d ∧ Deque.memSame (d.addLast x m).2.2 m) ∧
-    ((d.addAt x i m).1 ≠ .ok → (d.addAt x i m).2.1 = d ∧ Deque.memSame (d.addAt x i m).2.2 m) ∧
-    ((d.trimCapacity m).1 ≠ .ok → (d.trimCapacity m).2.1 = d ∧ Deque.memSame (d.trimCapacity m).2.2 m) := by
-  refine ⟨?_, ?_, ?_, ?_⟩
-  · intro h
-    rcases Deque.addFirst_spec d x m hi with ⟨a1, _⟩ | ⟨_, a2, a3, _⟩
-    · exact absurd a1 h
-    · exact ⟨a2, a3⟩
-  · intro h
-    rcases Deque.addLast_spec d x m hi with ⟨a1, _⟩ | ⟨_, a2, a3, _⟩
-    · exact absurd a1 h
-    · exact ⟨a2, a3⟩
-  · intro h
-    obtain ⟨_, a2, _, a4⟩ := Deque.addAt_inv d x i m hi
-    exact ⟨(a4 h).1, a2⟩
-  · intro h
-    rcases Deque.trimCapacity_spec d m hi with ⟨a1, _⟩ | ⟨_, a2, a3, _⟩
-    · exact absurd a1 h
-    · exact ⟨a2, a3⟩
-
 /-! ## capacity facts (C20, deque part) -/
 
 /-- the invariant says: capacity is a power of two, `size ≤ capacity`, the buffer block has at least
 `capacity` slots -/
 theorem inv_capacity (d : Deque) (hi : d.Inv) :
-    (∃ k, d.cap = 2 ^ k) ∧ d.size ≤ d.cap ∧ d.cap ≤ d.buf.length ∧ d.cap ≤ Gen.MAX_POW_TWO :=
+    (∃ k, d.cap = 2 ^ k) ∧ d.size ≤ d.cap ∧ d.buf.length = d.cap ∧ d.cap ≤ Gen.MAX_POW_TWO :=
   ⟨hi.pow2, hi.2.2.2.2.2, hi.2.2.1, hi.2.1⟩
 
 /-- growth doubles: a successful `add_last`/`add_first` keeps the capacity, or exactly doubles it when
@@ -338,9 +556,15 @@ theorem add_at_front_half_wrong :
   ⟨by decide, ⟨by decide, by decide⟩, by decide, by decide, ⟨by decide, by decide⟩, by decide⟩
 
 /-- the hypotheses are satisfiable by non-trivial states: a wrapped, exactly full deque -/
-example : (Deque.mk 4 4 3 3 [12, 13, 14, 11]).Inv ∧ (Deque.mk 4 4 3 3 [12, 13, 14, 11]).abs = [11, 12, 13, 14] ∧
+example : (Deque.mk 4 4 3 3 [12, 13, 14, 11] .conf).Inv ∧ (Deque.mk 4 4 3 3 [12, 13, 14, 11] .conf).abs = [11, 12, 13, 14] ∧
     d3Free [11, 12, 13, 14] [.addAt 7 3, .removeAt 2, .addAt 8 0, .reverse] := by
   refine ⟨by decide, by decide, ?_⟩
   simp [d3Free, inD3, stepS, DequeSpec.addAt, DequeSpec.removeAt]
+
+/-- non-vacuity of the every-schedule theorem: an exactly full, wrapped deque whose first growth is
+refused and second growth succeeds — the first call is blocked, the second is not -/
+example : flags (Deque.mk 2 2 1 1 [12, 11] .conf) { sched := [true] } [.addLast 5, .addLast 6] = [true, false] ∧
+    (runM (Deque.mk 2 2 1 1 [12, 11] .conf) { sched := [true] } [.addLast 5, .addLast 6]).2.1.abs = [11, 12, 6] := by
+  decide
 
 end CC.Properties.C05
